@@ -320,23 +320,17 @@ class BaseClient:
 
         :rtype: :py:class:`pathlib.PurePosixPath`
         """
-        seq_quotes = 0
-        start = False
+        _, _, rest = s.partition('"')
         directory = ""
-        for ch in s:
-            if not start:
-                if ch == '"':
-                    start = True
-            else:
-                if ch == '"':
-                    seq_quotes += 1
-                else:
-                    if seq_quotes == 1:
-                        break
-                    elif seq_quotes == 2:
-                        seq_quotes = 0
-                        directory += '"'
-                    directory += ch
+        i = 0
+        while i < len(rest):
+            if rest[i] == '"':
+                # doubled quote is quote itself, single one ends the path
+                if rest[i + 1 : i + 2] != '"':
+                    break
+                i += 1
+            directory += rest[i]
+            i += 1
         return pathlib.PurePosixPath(directory)
 
     @staticmethod
